@@ -127,8 +127,13 @@ def build_impl(log=None):
                 if os.path.exists(p):
                     shutil.copy(p, os.path.join(d, 'gensrc', os.path.basename(f)))
             srcs = sorted(glob.glob(os.path.join(ROOT, 'harness', 'drv.c')) + glob.glob(os.path.join(ROOT, 'harness', 'ops_*.c')))
+            wraps = []
+            for src in srcs:
+                txt = open(src).read()
+                wraps += re.findall(r'\bWRAPV?\w*\((\w+)', txt) + re.findall(r'\b__wrap_(\w+)\s*\(', txt)
+            wl = ['-Wl,--wrap=' + w for w in sorted(set(wraps))]
             sh(['gcc', '-O1', '-g', '-w', '-I' + os.path.join(d, 'include'), '-I' + os.path.join(ROOT, 'harness')] + srcs +
-               [os.path.join(d, 'libmpir.a'), '-lm', '-o', os.path.join(d, 'drv')], timeout=600)
+               [os.path.join(d, 'libmpir.a'), '-lm', '-lpthread'] + wl + ['-o', os.path.join(d, 'drv')], timeout=600)
         finally:
             shutil.rmtree(scratch, ignore_errors=True)
         with open(os.path.join(d, 'ok'), 'w') as fh:
@@ -160,7 +165,7 @@ def build_model(targets=None):
     with Lock('coq'):
         coq_makefile()
         tgt = ' '.join(targets) if targets else ''
-        rc, out = sh('timeout 3000 make -k -j%d %s' % (NCPU, tgt), cwd=COQ, check=False)
+        rc, out = sh('timeout 3000 make -k -j%d COQC="timeout 900 coqc" %s' % (NCPU, tgt), cwd=COQ, check=False)
         mdrv = os.path.join(COQ, 'extract', 'out', 'mdrv')
         need = not os.path.exists(mdrv)
         if not need:
@@ -188,7 +193,7 @@ def check_props(pid):
     with Lock('coq'):
         coq_makefile()
         # dependencies first (only out-of-date files rebuild)
-        rc0, out0 = sh('timeout 3000 make -k -j%d props/Properties_%s.vo' % (NCPU, pid), cwd=COQ, check=False)
+        rc0, out0 = sh('timeout 3000 make -k -j%d COQC="timeout 900 coqc" props/Properties_%s.vo' % (NCPU, pid), cwd=COQ, check=False)
         # then always re-run coqc on the property file itself to capture Print Assumptions
         rc, out = sh('timeout 1800 coqc -Q theories Mpir -Q gen MpirGen -Q props MpirProps props/Properties_%s.v' % pid, cwd=COQ, check=False)
     obl = []
@@ -223,9 +228,20 @@ def check_props(pid):
 
 
 # ----------------------------------------------------------------------------- running cases
+def _big_stack():
+    import resource
+    try:
+        resource.setrlimit(resource.RLIMIT_STACK, (resource.RLIM_INFINITY, resource.RLIM_INFINITY))
+    except Exception:
+        try:
+            soft, hard = resource.getrlimit(resource.RLIMIT_STACK)
+            resource.setrlimit(resource.RLIMIT_STACK, (hard, hard))
+        except Exception:
+            pass
+
 def _run_chunk(cmd, text, timeout):
     try:
-        r = subprocess.run(cmd, input=text.encode(), stdout=subprocess.PIPE, stderr=subprocess.PIPE, timeout=timeout)
+        r = subprocess.run(cmd, input=text.encode(), stdout=subprocess.PIPE, stderr=subprocess.PIPE, timeout=timeout, preexec_fn=_big_stack)
         return r.returncode, r.stdout.decode('utf-8', 'replace'), r.stderr.decode('utf-8', 'replace')
     except subprocess.TimeoutExpired as e:
         return -9, (e.stdout or b'').decode('utf-8', 'replace'), 'TIMEOUT'
@@ -268,11 +284,32 @@ def run_driver(cmd, cases, timeout=900, nproc=None, weights=None):
                     continue
                 if 0 <= idx < len(s):
                     res[s[idx]] = sp[1].strip() if len(sp) > 1 else ''
-            if rc != 0:
-                # first case without output is where the driver died
+            if rc != 0 and not any(res[i] and 'CRASH-SIGNAL' in res[i] for i in s):
+                # killed without a report (timeout, SIGKILL): first case without output is where it died
                 dead = next((i for i in s if res[i] is None), None)
                 crashes.append((dead, rc, err[-500:]))
     return res, crashes
+
+
+def run_robust(cmd, cases, timeout=900, died='DIED'):
+    """run_driver, then re-run (each in its own process) the cases that got no output because
+    an earlier case in their shard killed the driver."""
+    res, crashes = run_driver(cmd, cases, timeout=timeout)
+    for dead, rc, err in crashes:
+        if dead is not None and res[dead] is None:
+            res[dead] = '%s rc=%d %s' % (died, rc, err.strip().replace('\n', ' | ')[:160])
+    for rnd in range(3):
+        missing = [i for i, r in enumerate(res) if r is None]
+        if not missing:
+            break
+        sub = [cases[i] for i in missing]
+        r2, cr2 = run_driver(cmd, sub, timeout=timeout, nproc=min(len(sub), 4 * NCPU))
+        for dead, rc, err in cr2:
+            if dead is not None and r2[dead] is None:
+                r2[dead] = '%s rc=%d %s' % (died, rc, err.strip().replace('\n', ' | ')[:160])
+        for i, r in zip(missing, r2):
+            res[i] = r
+    return [r if r is not None else died + ' no-output' for r in res]
 
 
 def impl_cmd(impl_dir):
